@@ -58,6 +58,14 @@ def gen_scenario(seed, profile="general"):
             msgs = [m if m not in (None, "") else "f%d" % rng.randint(0, 30) for m in msgs]
         cancel = round(rng.choice((0, 0.001, 0.05, 0.4, 2.0)), 4) if rng.random() < 0.12 else None
         sends.append(dict(s=s, t=round(t, 4), topic=topic, key=key, msgs=msgs, cancel=cancel))
+    if batched and rng.random() < 0.3:
+        # one or two sends the producer has to refuse, among the others
+        for _ in range(rng.choice((1, 1, 2))):
+            at = rng.randrange(len(sends) + 1)
+            tt = sends[at - 1]["t"] if at > 0 else 0.0
+            sends.insert(at, dict(s=100 + len(sends), t=tt, topic=rng.choice(sorted(topics)), key="k",
+                                  msgs=rng.choice((["L300", "BAD"], ["f1", "f2", "BAD"], ["L2000", "BAD", "f3"], ["BAD"])),
+                                  cancel=None))
     stop = round(rng.uniform(0, t + 2.0), 4) if rng.random() < (0.25 if profile != "batch" else 0.35) else None
     faults = []
     nf = rng.choice((0, 0, 1, 2, 3, 5)) if profile != "nofault" else 0
@@ -109,7 +117,7 @@ def gen_scenario(seed, profile="general"):
         topics = {"t0": {p: brokers[p % nb] for p in range(np_)}}
         nsend = rng.choice((np_, np_ + 1, 2 * np_))
         cfg.update(batch_send=True, batch_every_n=sum(1 for _ in range(nsend)), batch_every_b=0, batch_every_t=None,
-                   partitioner="rr", max_req_attempts=rng.choice((3, 4, 5)), acks=rng.choice((1, -1)))
+                   partitioner="rr", max_req_attempts=rng.choice((3, 4, 5)), acks=rng.choice((1, -1, 0)))
         sends = [dict(s=i, t=0.0, topic="t0", key="k", msgs=["f%d" % i], cancel=None) for i in range(nsend)]
         cfg["batch_every_n"] = nsend
         stop = None
@@ -134,6 +142,14 @@ def gen_scenario(seed, profile="general"):
         if rng.random() < 0.3:
             events.append([round(rng.choice((0.01, 0.3, cfg["timeout"] + 0.1, cfg["timeout"] + cfg["retry_interval"] + 0.1)), 4),
                            "close_client"])
+        if cfg["acks"] == 0:
+            # without replies only a request that cannot be handed to its connection fails: the victim is already
+            # unreachable (but still named by the cached metadata) when the batch goes out, and returns later
+            faults = []
+            events = [[0.02, "stop", victim], [round(0.1 + rng.choice((0.5, cfg["timeout"] + 0.3, 2 * cfg["timeout"] + 1.0)), 4),
+                                              "start", victim]]
+            for sd_ in sends:
+                sd_["t"] = 0.1
         t = 0.0
     if profile == "down":
         # a leader the cached metadata still names has become unreachable for good (connections refused): every
@@ -220,6 +236,7 @@ def run_scenario(sc):
     tr.w = w
     tr.cluster = cl
     tr.sends = {}
+    tr.rejected = []
     tr.stop_called = None
     tr.stop_returned = None
     tr.stop_raised = None
@@ -256,6 +273,20 @@ def run_scenario(sc):
             s = sd["s"]
             key = send_key(s, sd["key"])
             msgs = [payload_value(s, j, m) for j, m in enumerate(sd["msgs"])]
+            if any(m == "BAD" for m in sd["msgs"]):
+                # a send the producer must reject (a message that is not bytes, after some that are): it is not
+                # queued and must leave no trace in the batching accounts
+                msgs = [12345 if m == "BAD" else v for m, v in zip(sd["msgs"], msgs)]
+                rj = dict(s=s, t=w.clock.seconds(), fires=[], raised=None)
+                tr.rejected.append(rj)
+                log.append(("send_rejected", w.clock.seconds(), s))
+                try:
+                    d_ = producer.send_messages(sd["topic"], key=key, msgs=msgs)
+                    d_.addBoth(lambda r: rj["fires"].append((w.clock.seconds(), not isinstance(r, Failure),
+                                                              type(getattr(r, "value", r)).__name__)))
+                except Exception as e:
+                    rj["raised"] = type(e).__name__
+                return
             rec = dict(s=s, topic=sd["topic"], key=key, msgs=msgs, t=w.clock.seconds(), fires=[], cancelled=None,
                        d=None, after_stop=tr.stop_called is not None, step=w.clock.steps)
             tr.sends[s] = rec
